@@ -53,7 +53,8 @@ class Sim:
         self.hs = hal.simulation
         self.real = {}
         self.q = None
-        self.enabled = False
+        self.enabled = False            # gates only the announcement of blocking waits
+        self.inits = set()
         self.reset(None)
 
     # -- clock ---------------------------------------------------------
@@ -75,9 +76,10 @@ class Sim:
 
     # -- tap -----------------------------------------------------------
     def reset(self, q):
+        self.release_leftovers()
         self.q = q
-        self.inits = []
-        self.active = set()
+        self.inits = set()              # every handle the implementation obtained since the last reset
+        self.active = set()             # ... and has neither stopped nor cleaned
         self.cleans = 0
         self.stops = 0
         self.blocked = 0
@@ -94,25 +96,22 @@ class Sim:
 
         def t_init(*a, **k):
             r = real["initializeNotifier"](*a, **k)
-            if self.enabled:
-                self.inits.append(r[0])
-                self.active.add(r[0])
+            self.inits.add(r[0])
+            self.active.add(r[0])
             return r
 
         def t_stop(*a, **k):
-            if self.enabled:
-                h = handle_of(a, k)
-                if h in self.inits:
-                    self.stops += 1
-                self.active.discard(h)
+            h = handle_of(a, k)
+            if h in self.inits:
+                self.stops += 1
+            self.active.discard(h)
             return real["stopNotifier"](*a, **k)
 
         def t_clean(*a, **k):
-            if self.enabled:
-                h = handle_of(a, k)
-                if h in self.inits:
-                    self.cleans += 1
-                self.active.discard(h)
+            h = handle_of(a, k)
+            if h in self.inits:
+                self.cleans += 1
+            self.active.discard(h)
             return real["cleanNotifier"](*a, **k)
 
         def t_wait(*a, **k):
@@ -139,12 +138,15 @@ class Sim:
             setattr(self.hal, n, f)
 
     def release_leftovers(self):
+        """Stop and clean (directly, uncounted) whatever the implementation left allocated."""
         for h in list(self.inits):
             try:
                 self.real["stopNotifier"](h)
                 self.real["cleanNotifier"](h)
             except Exception:
                 pass
+        self.inits = set()
+        self.active = set()
 
 
 def impl():
@@ -175,9 +177,12 @@ def drive(sim, cls, case):
     ops = case["ops"]
     use_with = case["with"] and any(o[0] == "X" for o in ops)
     q = queue.Queue()
-    sim.restart(case["t0"])
     sim.reset(q)
+    sim.restart(case["t0"])
     res = {"ctor": None, "t0": sim.now(), "snap0": None, "snaps": [], "error": None}
+    if sim.hs.getNumNotifiers() != 0:
+        res["error"] = "harness: %d stray active notifiers before the case" % sim.hs.getNumNotifiers()
+        return res
 
     abort = threading.Event()   # set when the main thread gave up on this worker
 
@@ -242,14 +247,15 @@ def drive(sim, cls, case):
         if m[0] == "done":
             break
         # the worker announced a wait() that must block until FPGA time m[2]
-        sim.hs.stepTiming(0)            # returns once the notifier is inside HAL_WaitForNotifierAlarm
+        if sim.hs.getNumNotifiers() == 1:
+            sim.hs.stepTiming(0)        # returns once the (only) active notifier is inside HAL_WaitForNotifierAlarm
+            res["confirmed"] = res.get("confirmed", 0) + 1
         if sim.now() != m[1]:
             res["error"] = "harness: clock moved while a wait was outstanding"
         sim.advance(m[2] - sim.now())   # exactly to the alarm, never beyond
     th.join(timeout=HANG_S)
     sim.enabled = False
     res["blocked"] = sim.blocked
-    res["cleans_total"] = sim.cleans
     sim.release_leftovers()
     return res
 
@@ -494,11 +500,14 @@ CASES_HEADER = ("From Coq Require Import ZArith QArith List.\nFrom RV Require Im
 
 def sweep(sim, cls, ns):
     """n for which NotifierDelay(nearest double of n/10^6) does not arm t0 + n."""
+    sim.reset(None)
     sim.restart(0)
     sim.enabled = False
     t = sim.now()
     bad = []
     for n in ns:
+        if len(sim.inits) > 64:
+            sim.reset(None)             # a constructor/free() pair that leaks must not pile up notifiers
         try:
             d = cls(n / 1e6)
             a = sim.alarm()
@@ -512,6 +521,7 @@ def sweep(sim, cls, ns):
             bad.append((n, None if a is None else a - t))
             if len(bad) > 20:
                 break
+    sim.reset(None)
     return bad
 
 
@@ -753,7 +763,7 @@ def _run(ctx, sim):
         outv = []
         for c, fails in found:
             fp = fails[0][0]
-            if fp not in ("hang",):
+            if not (fp == "hang" and "no progress" in fails[0][1]):     # a wall-clock hang costs HANG_S per attempt
                 try:
                     c = shrink(sim, cls, c, fp)
                 except Exception:
